@@ -30,6 +30,8 @@ func init() {
 	executors["sendseq"] = execSendSeq
 	executors["sendm"] = execSendM
 	scenarios["sendm"] = genSendM
+	executors["hsm"] = execHsM
+	scenarios["hsm"] = genHsM
 	scenarios["send"] = genSend
 }
 
@@ -432,6 +434,70 @@ func execSendM(a []string) (string, string) {
 }
 
 var metricsMu sync.Mutex
+
+// hsm <12 hs args>: the handshake of `hs`, measured at the default gatherer — session establishment counts one attempt,
+// one failure exactly when no session came back, raises the open-sessions gauge exactly when one did, and issues no
+// command of its own (nothing else moves)
+func execHsM(a []string) (string, string) {
+	metricsMu.Lock()
+	defer metricsMu.Unlock()
+	before := gather()
+	out, verdict := execHs(a)
+	after := gather()
+	d := func(key string) int { return int(after[key] - before[key]) }
+	res := "err"
+	if i := strings.Index(out, " res="); i >= 0 && strings.HasPrefix(out[i+5:], "ok") {
+		res = "ok"
+	}
+	other := 0
+	for k := range after {
+		switch k {
+		case "bmc_session_open_attempts_total", "bmc_session_open_failures_total", "bmc_sessions_open":
+		default:
+			// the scenario's own connection: dialled inside the measured window, closed inside it
+			if strings.HasPrefix(k, "bmc_connection") || strings.HasPrefix(k, "bmc_v2_connection") {
+				continue
+			}
+			if v := d(k); v != 0 {
+				other++
+				if verdict == "" {
+					verdict = fmt.Sprintf("%s moved by %d during session establishment", k, v)
+				}
+			}
+		}
+	}
+	o := fmt.Sprintf("res=%s attempts=%d failures=%d open=%d other=%d", res, d("bmc_session_open_attempts_total"),
+		d("bmc_session_open_failures_total"), d("bmc_sessions_open"), other)
+	if verdict == "" {
+		want := map[string][3]int{"ok": {1, 0, 1}, "err": {1, 1, 0}}[res]
+		if got := [3]int{d("bmc_session_open_attempts_total"), d("bmc_session_open_failures_total"), d("bmc_sessions_open")}; got != want {
+			verdict = fmt.Sprintf("establishment ended %q: attempts/failures/open-gauge moved by %v, want %v", res, got, want)
+		}
+	}
+	return o, verdict
+}
+
+func genHsM(g *genCtx) {
+	var ops []Op
+	sub := &genCtx{rng: g.rng, tier: g.tier, stat: map[string]int{}}
+	sub.emit = func(op Op) { ops = append(ops, op) }
+	scenarios["hs"](sub)
+	every := 6
+	if g.thorough() {
+		every = 1
+	}
+	k := 0
+	for _, op := range ops {
+		if op.Kind != "hs" {
+			continue
+		}
+		if k++; k%every != 0 {
+			continue
+		}
+		op.Kind = "hsm"
+		g.emit(op)
+	}
+}
 
 func genSendM(g *genCtx) {
 	sp := learnSession(1, 1)
